@@ -32,6 +32,7 @@ type Attempt struct {
 	ReadMs  int     `json:"readms,omitempty"`  // virtual delay before each body read
 	HangMs  int     `json:"hangms,omitempty"`  // cancel: how long the last read blocks before the harness cancels
 	Filler  int     `json:"filler,omitempty"`  // number of 32-byte id-less filler events appended to Stream (so that one connection carries more than the scanner's buffer)
+	NoRead  bool    `json:"noread,omitempty"`  // neterr: the transport fails before reading the request body (a dial failure); it closes the body, as RoundTrippers must
 	ErrKind string  `json:"errkind,omitempty"` // neterr / End=err: "" plain | deadline | canceled: an error that LOOKS like a context error but does not come from the request's context (e.g. a dial or client timeout)
 }
 
@@ -76,6 +77,7 @@ type attemptObs struct {
 	body     string   // what the transport read from the request body
 	bodyErr  error
 	hasBody  bool
+	unread   bool // the transport failed before reading the request body
 	kind     string
 }
 
@@ -216,6 +218,26 @@ type rtFunc func(*http.Request) (*http.Response, error)
 
 func (f rtFunc) RoundTrip(r *http.Request) (*http.Response, error) { return f(r) }
 
+// trackedBody is a request body that, like a file or a pipe, cannot be read once closed.
+type trackedBody struct {
+	io.ReadCloser
+	closed bool
+}
+
+var errClosedBody = errors.New("harness: read from a request body that was already closed")
+
+func (b *trackedBody) Read(p []byte) (int, error) {
+	if b.closed {
+		return 0, errClosedBody
+	}
+	return b.ReadCloser.Read(p)
+}
+
+func (b *trackedBody) Close() error {
+	b.closed = true
+	return b.ReadCloser.Close()
+}
+
 // failingReader is a request body without GetBody.
 type plainReader struct{ r *strings.Reader }
 
@@ -261,8 +283,15 @@ func run(t *testing.T, sc Script, setup func(conn *sse.Connection, tr *Trace)) (
 				if sc.Body == "getbodyfail" && k == sc.GetBodyFail {
 					return nil, errGetBody
 				}
-				return orig()
+				rc, err := orig()
+				if err != nil {
+					return nil, err
+				}
+				return &trackedBody{ReadCloser: rc}, nil
 			}
+		}
+		if req.Body != nil && req.Body != http.NoBody {
+			req.Body = &trackedBody{ReadCloser: req.Body}
 		}
 
 		cl := &sse.Client{Backoff: sc.Backoff.real()}
@@ -292,16 +321,21 @@ func run(t *testing.T, sc Script, setup func(conn *sse.Connection, tr *Trace)) (
 			if v, ok := r.Header["Last-Event-Id"]; ok {
 				obs.hdr = append([]string{}, v...)
 			}
-			if r.Body != nil && r.Body != http.NoBody {
-				b, err := io.ReadAll(r.Body)
-				obs.body, obs.bodyErr, obs.hasBody = string(b), err, true
-			}
 			var a Attempt
 			if k < len(sc.Attempts) {
 				a = sc.Attempts[k]
 			} else {
 				// the script is over: end the run by cancellation (DESIGN 5/C11)
 				a = Attempt{Kind: "scriptend"}
+			}
+			if r.Body != nil && r.Body != http.NoBody {
+				if a.Kind == "neterr" && a.NoRead {
+					obs.unread = true
+				} else {
+					b, err := io.ReadAll(r.Body)
+					obs.body, obs.bodyErr, obs.hasBody = string(b), err, true
+				}
+				r.Body.Close() // "RoundTrip must always close the body, including on errors"
 			}
 			obs.kind = a.Kind
 			if a.DelayMs > 0 {
